@@ -132,6 +132,11 @@ def h_maintain(eng, op="pack_loose", head=None):
                 r.object_store.write_midx()
             else:
                 eng.assume(False)
+        # a second, long-lived reader (another process) that has so far only asked whether objects exist
+        reader = Repo(d)
+        for s_ in sorted(want):
+            if s_ in g["by_id"]:
+                eng.prove(s_ in reader.object_store, "reader sees every reachable object before the operation")
         if op == "pack_loose":
             r.object_store.pack_loose_objects()
         elif op == "repack":
@@ -146,6 +151,15 @@ def h_maintain(eng, op="pack_loose", head=None):
         for s in want:
             if s in g["by_id"]:
                 eng.prove(s in r.object_store, f"reachable object reported present by the running process after {op}")
+        for s_ in sorted(want):
+            if s_ not in g["by_id"]:
+                continue
+            try:
+                tn, raw = reader.object_store.get_raw(s_)
+                eng.prove(raw == g["by_id"][s_].as_raw_string(), f"long-lived reader reads identical bytes after {op}")
+            except KeyError as e:
+                eng.fail(f"long-lived reader got a spurious missing object after {op}: {e!r}")
+        reader.close()
         r.close()
         r = Repo(d)
         for s in want:
